@@ -61,6 +61,8 @@ Lemma shape_gen_steps :
     "excludeStrSet := syslutil.MakeStrSet(intgenParams.Exclude...)";
     "app := model.GetApps()[intgenParams.Project]";
     "of := cmdutils.MakeFormatParser(intgenParams.Output)";
+    "for _, format := range []string{ getAppfmtAttrOrDefault(app), getEpfmtAttr(app), getTitleFormat(app, intgenParams.Title), }";
+    "loop: if err := cmdutils.MakeFormatParser(format).Check(); err != nil { return nil, err }";
     "for _, epname := range sortedSlice(app.GetEndpoints())";
     "loop: endpt := app.GetEndpoints()[epname]";
     "loop: outputDir := of.FmtOutput(intgenParams.Project, epname, endpt.GetLongName(), endpt.GetAttrs())";
@@ -81,19 +83,32 @@ Lemma shape_fmt_output :
                     "return fp.Parse(valMap)"].
 Proof. reflexivity. Qed.
 
+(* since 8952ebf: the three format strings of the project application are tried before the endpoint loop, an error
+   return for the first that FormatParser.Check refuses; the getters are the ones the views use; Check is a Parse
+   without values under recover *)
+Lemma shape_format_check :
+  nth 5 gen_steps "" = "for _, format := range []string{ getAppfmtAttrOrDefault(app), getEpfmtAttr(app), getTitleFormat(app, intgenParams.Title), }" /\
+  nth 6 gen_steps "" = "loop: if err := cmdutils.MakeFormatParser(format).Check(); err != nil { return nil, err }" /\
+  format_getters = [("getAppfmtAttrOrDefault", ["a := project.GetAttrs()[""appfmt""].GetS()"; "if a != """" { return a }"; "return AppfmtDefault"]);
+                    ("getEpfmtAttr", ["return project.GetAttrs()[""epfmt""].GetS()"]);
+                    ("getTitleFormat", ["if t := project.GetAttrs()[""title""].GetS(); t != """" { return t }"; "return title"])] /\
+  fmt_check_src = ["defer func() { if r := recover(); r != nil { fp.Clear() err = fmt.Errorf(""invalid format string %q: %v"", fp.Self, r) } }()";
+                   "fp.Parse(map[string]string{})"; "return nil"].
+Proof. repeat split; reflexivity. Qed.
+
 Theorem cmd_source_shape :
   modes_of_src output_modes = Some mode_table /\
   output_mode_src = ["mode := path.Ext(output)"; "mode = strings.Replace(mode, ""."", """", 1)"] /\
   from_map = ["for k, v := range m { if err := OutputPlantuml(k, p.Value(), v, fs); err != nil { return err } }"; "return nil"] /\
   nth 2 cmd_execute "" = "return p.GenerateFromMap(result, args.Filesystem)" /\
   nth 1 gen_steps "" = "if len(intgenParams.Exclude) == 0 && intgenParams.Project != """" { intgenParams.Exclude = []string{intgenParams.Project} }" /\
-  nth 5 gen_steps "" = "for _, epname := range sortedSlice(app.GetEndpoints())" /\
-  nth 7 gen_steps "" = "loop: outputDir := of.FmtOutput(intgenParams.Project, epname, endpt.GetLongName(), endpt.GetAttrs())" /\
-  nth 8 gen_steps "" = "loop: if intgenParams.Filter != """" { re := regexp.MustCompile(intgenParams.Filter) if !re.MatchString(outputDir) { continue } }" /\
-  nth 11 gen_steps "" = "loop: b := MakeBuilderfromStmt(model, endpt.GetStmt(), excludeStrSet.Union(excludes), passthroughs)" /\
-  nth 13 gen_steps "" = "loop: args := &Args{intgenParams.Title, intgenParams.Project, intgenParams.Clustered, intgenParams.EPA}" /\
-  nth 14 gen_steps "" = "loop: r[outputDir] = GenerateView(args, intsParam, model)" /\
-  List.length gen_steps = 16%nat /\ List.length cmd_execute = 3%nat /\ List.length fmt_output_src = 3%nat /\
+  nth 7 gen_steps "" = "for _, epname := range sortedSlice(app.GetEndpoints())" /\
+  nth 9 gen_steps "" = "loop: outputDir := of.FmtOutput(intgenParams.Project, epname, endpt.GetLongName(), endpt.GetAttrs())" /\
+  nth 10 gen_steps "" = "loop: if intgenParams.Filter != """" { re := regexp.MustCompile(intgenParams.Filter) if !re.MatchString(outputDir) { continue } }" /\
+  nth 13 gen_steps "" = "loop: b := MakeBuilderfromStmt(model, endpt.GetStmt(), excludeStrSet.Union(excludes), passthroughs)" /\
+  nth 15 gen_steps "" = "loop: args := &Args{intgenParams.Title, intgenParams.Project, intgenParams.Clustered, intgenParams.EPA}" /\
+  nth 16 gen_steps "" = "loop: r[outputDir] = GenerateView(args, intsParam, model)" /\
+  List.length gen_steps = 18%nat /\ List.length cmd_execute = 3%nat /\ List.length fmt_output_src = 3%nat /\
   map (fun f => (fst (fst (fst f)), snd f)) cmd_flags =
     [("title", "StringVar &p.Title"); ("output", "StringVar &p.Output"); ("project", "StringVar &p.Project"); ("filter", "StringVar &p.Filter");
      ("exclude", "StringsVar &p.Exclude"); ("clustered", "BoolVar &p.Clustered"); ("epa", "BoolVar &p.EPA")] /\
